@@ -27,8 +27,8 @@ REQUIRED_BRANCHES = set(UNIT_DIMS)
 
 def run(ctx):
     repo = ctx.repo
-    r03a(ctx, repo)
-    r03b(ctx, repo)
+    ctx.each(r03a, ctx, repo)
+    ctx.each(r03b, ctx, repo)
 
 
 def unit_consts_in_test(test, pv):
